@@ -58,7 +58,10 @@ def handle (inp out : List String) : String :=
       let n := nF.toUInt64.toNat
       let model := [toString n, toString ncw, toString k, hex (Float.ofNat k / Float.ofNat n)]
       let prop : Option String :=
-        if n ≠ frameSize cfg ncw then some "frame-size-is-not-n_cw-times-trues-over-pattern-length"
+        -- judged on the IMPLEMENTATION's reported sizes: n = n_cw·trues/|pattern| exactly, n_cw and k from the matrix, rate = k/n
+        if out.take 3 ≠ [toString (frameSize cfg ncw), toString ncw, toString k] then some "reported-frame-size-is-not-n_cw-times-trues-over-pattern-length"
+        else if out.getD 3 "" ≠ hex (Float.ofNat k / Float.ofNat (frameSize cfg ncw)) then some "reported-rate-is-not-k-over-n-after-puncturing"
+        else if n ≠ frameSize cfg ncw then some "model-frame-size-formula-inconsistent"
         else (out.drop 4).foldl (fun acc v => match acc with | some e => some e | none => checkVector h cfg v) none
       verdict (model ++ out.drop 4) out prop
     | _, _ => "BADLINE c12 chain"
